@@ -485,6 +485,55 @@ def rule_taylor(rep: Report, repo: Repo):
             ok = norm(m.elt.left) == s and norm(m.elt.right) == p
     rep.check(ok, R, "_sympy_to_BlockSeries::op_eval multiplies back the monomial prod symbols[k]**index[k]",
               "position-wise pairing of symbols and orders", loc(o))
+    # every order is answered from the derivative: no path of op_eval may declare a coefficient absent without computing it
+    from .sem import Scope as _Sc, outcomes as _oc
+    shortcuts, n_ret = [], 0
+    for oc in _oc(o.body, _Sc(repo.trees["block_diagonalization"], o), env={}, expand=False):
+        if oc.kind == "raise":
+            continue
+        if oc.kind != "return" or oc.value is None:
+            raise AnalysisError(R, "op_eval: path without a returned value")
+        n_ret += 1
+        reads = any(isinstance(n_, ast.Subscript) and norm(n_.value) == "operator_derivatives" and norm(n_.slice) == oi for n_ in ast.walk(oc.value))
+        if reads:
+            continue
+        if norm(oc.value) == "zero":
+            # a shortcut is sound if it is taken only beyond the TOTAL degree of a polynomial operator; the degree in one symbol
+            # (sympy: Poly.degree() without a generator is the degree in the first one) is not a bound on sum(index)
+            verdict = None
+            for t_, p_ in oc.conds:
+                from .sem import canon as _cn
+                for a_ in ast.walk(_cn(t_)):
+                    if isinstance(a_, ast.Compare) and len(a_.ops) == 1 and isinstance(a_.ops[0], ast.Lt) and norm(a_.comparators[0]) == f"sum({oi})" \
+                            and isinstance(a_.left, ast.Name) and p_:
+                        vals = [x.value for x in ast.walk(f) if isinstance(x, ast.Assign) and norm(x.targets[0]) == a_.left.id
+                                and not (isinstance(x.value, ast.Constant) and x.value.value is None)]
+                        kinds = set()
+                        for v_ in vals:
+                            calls = [c_ for c_ in ast.walk(v_) if isinstance(c_, ast.Call) and isinstance(c_.func, ast.Attribute)
+                                     and c_.func.attr in ("degree", "total_degree") and isinstance(c_.func.value, ast.Call)
+                                     and (call_name(c_.func.value) or "").endswith("Poly")]
+                            if len(calls) != 1:
+                                kinds.add("?")
+                            elif calls[0].func.attr == "total_degree":
+                                kinds.add("total")
+                            elif not calls[0].args and not calls[0].keywords:
+                                kinds.add("first-symbol")
+                            else:
+                                kinds.add("?")
+                        if kinds == {"total"}:
+                            verdict = True
+                        elif kinds == {"first-symbol"}:
+                            verdict = False
+            cond_txt = "; ".join(("" if p_ else "not ") + norm(t_)[:60] for t_, p_ in oc.conds) or "unconditionally"
+            if verdict is None:
+                raise AnalysisError(R, f"op_eval returns `zero` without computing the coefficient when `{cond_txt}`: whether that bound is sound is not understood")
+            if verdict is False:
+                shortcuts.append(cond_txt + " (the bound is Poly.degree(): the degree in the first symbol only, not the total degree)")
+        else:
+            raise AnalysisError(R, f"op_eval returns `{norm(oc.value)[:70]}` on a path that does not read the derivative series")
+    rep.check(n_ret > 0 and not shortcuts, R, "_sympy_to_BlockSeries::op_eval answers every order from the derivative series (zero only if the computed coefficient vanishes)",
+              ("returns `zero` without computing the coefficient when: " + " | ".join(shortcuts)) if shortcuts else "", loc(o))
     # dimension names = the same `symbols` sequence
     ctors = [n for n in own_nodes(f) if isinstance(n, ast.Call) and call_name(n) == "BlockSeries"]
     ok = bool(ctors) and all({k.arg: norm(k.value) for k in c.keywords}.get("dimension_names") == "symbols" and
